@@ -411,7 +411,18 @@ extern "C" int simk_poll(struct pollfd *fds, nfds_t n, int timeout)
 {
 	if (!in_task()) return poll(fds, n, timeout);
 	call_point(S_POLL);
-	if (timeout != 0 && fault_here(F_EINTR_WAIT, C().rate_eintr, NULL, 0)) { errno = EINTR; return -1; }
+	int64_t frac;
+	if (timeout != 0 && fault_here(F_EINTR_WAIT, C().rate_eintr, &frac, 1001)) {
+		// a signal handler ran: at once, or - nothing being ready - after part of the wait has gone by
+		if (timeout > 0 && frac > 0) {
+			int g0 = poll_now(fds, n);
+			if (g0 != 0) return g0;
+			PollWait w0; w0.fds = fds; w0.n = n; w0.got = 0;
+			int64_t part = (int64_t)timeout * 1000000LL / 1000 * (frac > 1000 ? 1000 : frac);
+			if (block_until(poll_ready, &w0, now_ns() + part, S_POLL) == 0) return w0.got > 0 ? w0.got : poll_now(fds, n);
+		}
+		errno = EINTR; return -1;
+	}
 	int got = poll_now(fds, n);
 	if (got != 0 || timeout == 0) return got;
 	PollWait w; w.fds = fds; w.n = n; w.got = 0;
